@@ -58,3 +58,27 @@ if _mode:
     def scandir(path='.'):
         return _Scan(path)
     os.scandir = scandir
+
+
+# ---- the clock: $VERIF_FAKE_NOW=<epoch seconds> fixes what datetime.datetime.now()/utcnow()/today() and time.time() answer
+_now = os.environ.get('VERIF_FAKE_NOW')
+if _now:
+    import datetime as _dtmod
+    import time as _time
+    _t = float(_now)
+    _RealDT = _dtmod.datetime
+
+    class datetime(_RealDT):  # noqa: N801 - stands in for datetime.datetime
+        @classmethod
+        def now(cls, tz=None):
+            return cls.fromtimestamp(_t, tz)
+
+        @classmethod
+        def utcnow(cls):
+            return cls.utcfromtimestamp(_t)
+
+        @classmethod
+        def today(cls):
+            return cls.fromtimestamp(_t)
+    _dtmod.datetime = datetime
+    _time.time = lambda: _t
